@@ -309,6 +309,22 @@ def gas_entries():
     E.append(BEntry("gas_pedersen_loop", [("x", "felt252")], "felt252",
                     "let mut acc = x; let mut i: u8 = 0; while i != 2 { acc = "
                     "core::pedersen::pedersen(acc, 3); i += 1; }; acc", None, tags=("gas", "lin_only")))
+    # builtins used *outside* the loop: their price is part of the entry cost of a function that
+    # also carries a gas counter (pre-paid tokens next to a withdraw_gas inside the loop)
+    loop = "let mut i: u8 = 0; while i != 2 { acc = acc + 3; i += 1; }; acc"
+    E.append(BEntry("gas_pedersen_then_loop", [("x", "felt252")], "felt252",
+                    "let mut acc = core::pedersen::pedersen(x, 3); " + loop, None, tags=("gas",)))
+    E.append(BEntry("gas_poseidon_then_loop", [("x", "felt252")], "felt252",
+                    "let (h, _, _) = core::poseidon::hades_permutation(x, 1, 2); let mut acc = h; "
+                    + loop, None, tags=("gas",)))
+    E.append(BEntry("gas_bitwise_then_loop", [("x", "u128"), ("y", "u128")], "felt252",
+                    "let mut acc: felt252 = ((x & y) ^ (x | 5)).into(); " + loop, None,
+                    tags=("gas",)))
+    E.append(BEntry("gas_loop_then_hashes", [("x", "felt252")], "felt252",
+                    "let mut acc = x; let mut i: u8 = 0; while i != 2 { acc = acc * 2; i += 1; }; "
+                    "let (h, _, _) = core::poseidon::hades_permutation(acc, 1, 2); "
+                    "core::pedersen::pedersen(h, core::pedersen::pedersen(acc, 1))", None,
+                    tags=("gas",)))
     E.append(BEntry("gas_withdraw_all", [("x", "u8")], "u8",
                     "match core::gas::withdraw_gas_all(core::gas::get_builtin_costs()) { Some(_) => x, "
                     "None => 0 }", None, tags=("gas",)))
